@@ -187,9 +187,9 @@ class RefsWorld:
             elif k == 'const':
                 ops.append({'op': 'const', 't': t, 'how': rng.choice(['plain', 'ref', 'update'])})
             elif k == 'ro':
-                ops.append({'op': 'ro', 't': t, 'how': rng.choice(['inst', 'cls', 'ref'])})
+                ops.append({'op': 'ro', 't': t, 'how': rng.choice(['inst', 'cls', 'ref']), 'sub': rng.random() < 0.5})
             elif k == 'clsset':
-                ops.append({'op': 'clsset', 'p': rng.choice(['a', 't']), 'v': rng.choice([99, 'bad'])})
+                ops.append({'op': 'clsset', 'p': rng.choice(['a', 't']), 'v': rng.choice([99, 'bad']), 'sub': rng.random() < 0.5})
             elif k == 'ctor_bad':
                 pn = rng.choice(['a', 'b', 't'])
                 kw = {p: {'ref': self.gen_ref(rng, p, ns)} for p in ('c',) if rng.random() < 0.5}
@@ -295,6 +295,7 @@ class _Run:
             'k': param.Number(default=3, bounds=(0, 10), constant=True, allow_refs=True),
             'ro': param.Number(default=4, readonly=True, allow_refs=True),
         })
+        self.SubTgt = type('SubTgt', (self.Tgt,), {})       # inherits every Parameter: a class-level set copies on write
         self.src = [Src() for _ in range(self.cfg['n_src'])]
         self.msrc = [{'x': 1, 'y': 2} for _ in self.src]
         self.tainted = set()          # sources whose last update raised
@@ -400,6 +401,9 @@ class _Run:
         for i, t in enumerate(self.tgt):
             vals.append((f"T{i}",) + tuple(repr(getattr(t, p)) for p in TPARAMS + ('ro',)) + (self.wcount(t),))
         vals.append(('cls', repr(self.Tgt.a), repr(self.Tgt.t), repr(self.Tgt.ro), repr(self.Tgt.k)))
+        # the inheriting subclass sees the very Parameter objects of its base (a rejected class-level set must not detach it)
+        vals.append(('subcls', repr(self.SubTgt.a), repr(self.SubTgt.t), repr(self.SubTgt.ro)) +
+                    tuple(self.SubTgt.param[p] is self.Tgt.param[p] for p in ('a', 't', 'ro', 'k', 'c')))
         return (vals, len(self.elog))
 
     def compare_snap(self, snap, what):
@@ -628,12 +632,14 @@ class _Run:
             if how == 'inst':
                 self.attempt(lambda: setattr(t, 'ro', 9), False, f"readonly T{ti}.ro = 9")
             elif how == 'cls':
-                self.attempt(lambda: setattr(self.Tgt, 'ro', 9), False, "readonly Tgt.ro = 9")
+                K = self.SubTgt if op.get('sub') else self.Tgt
+                self.attempt(lambda: setattr(K, 'ro', 9), False, f"readonly {K.__name__}.ro = 9")
             else:
                 r = self.src[0].param.y
                 self.attempt(lambda: setattr(t, 'ro', r), False, f"readonly T{ti}.ro <- S0.y")
         elif k == 'clsset':
-            self.attempt(lambda: setattr(self.Tgt, op['p'], op['v']), False, f"class-level Tgt.{op['p']} = {op['v']!r}")
+            K = self.SubTgt if op.get('sub') else self.Tgt
+            self.attempt(lambda: setattr(K, op['p'], op['v']), False, f"class-level {K.__name__}.{op['p']} = {op['v']!r}")
         elif k == 'ctor':
             self.construct(op['kw'])
 
